@@ -156,6 +156,19 @@ def _check(pc, goal, timeout_ms):
     return "unknown", None, "z3: %s; cvc5: %s" % (reason, v), None
 
 
+_BINDERS = ("Sum", "LSE", "Any", "StackV", "CumSum", "SearchSortedLeft", "CategoricalDraw")
+
+
+def _lam_arg(a):
+    """index of the lambda (array) argument of a binder application, and of its length argument (or None)"""
+    n = a.decl().name()
+    if n in ("Sum", "LSE", "Any", "StackV"):
+        return 1, 0
+    if n == "CumSum":
+        return 0, None
+    return 0, 1  # SearchSortedLeft(lam, n, v), CategoricalDraw(lam, n, nonce, j)
+
+
 def _reduction_apps(exprs):
     seen, out = set(), []
 
@@ -163,7 +176,7 @@ def _reduction_apps(exprs):
         if e.get_id() in seen:
             return
         seen.add(e.get_id())
-        if z3.is_app(e) and e.decl().name() in ("Sum", "LSE", "Any") and e.num_args() == 2:
+        if z3.is_app(e) and e.decl().name() in _BINDERS and e.num_args() >= 2:
             out.append(e)
         if z3.is_quantifier(e):
             walk(e.body())
@@ -176,43 +189,75 @@ def _reduction_apps(exprs):
     return out
 
 
+def _finite_instance(a, N):
+    """the meaning of a binder application when its array has exactly M entries (finite sums etc.)"""
+    name = a.decl().name()
+    li, ni = _lam_arg(a)
+    lam = a.arg(li)
+    M = N
+    side = []
+    if ni is not None:
+        n = a.arg(ni)
+        if z3.is_int_value(n):
+            M = n.as_long()
+            if M > 16:
+                return None
+        else:
+            side.append(n == N)
+    elems = [z3.simplify(z3.Select(lam, z3.IntVal(k))) for k in range(M)]
+    if name == "Sum":
+        exp = z3.Sum(elems) if M > 1 else (elems[0] if M == 1 else z3.RealVal(0))
+    elif name == "Any":
+        exp = z3.Or(*elems) if elems else z3.BoolVal(False)
+    elif name == "LSE":
+        f = z3.Function("LSE_%d" % M, *([z3.RealSort()] * M), z3.RealSort()) if M else None
+        exp = f(*elems) if M else z3.Real("lse_empty")
+    elif name == "StackV":
+        srt = lam.sort().range()
+        f = z3.Function("Stack_%d_%s" % (M, srt), *([srt] * M), a.sort()) if M else None
+        exp = f(*elems) if M else z3.Const("stack_empty", a.sort())
+    elif name == "CumSum":
+        i = a.arg(1)
+        exp = z3.RealVal(0)
+        for k in range(M - 1, -1, -1):  # sum_{k<=i} over the first M entries
+            exp = z3.If(i >= k, z3.Sum(elems[: k + 1]) if k > 0 else elems[0], exp) if k == M - 1 else z3.If(i == k, z3.Sum(elems[: k + 1]) if k > 0 else elems[0], exp)
+        side.append(z3.And(i >= 0, i < M) if M else z3.BoolVal(True))
+    elif name == "SearchSortedLeft":
+        v = a.arg(2)
+        exp = z3.Sum([z3.If(e < v, 1, 0) for e in elems]) if M > 1 else (z3.If(elems[0] < v, 1, 0) if M == 1 else z3.IntVal(0))
+    else:  # CategoricalDraw(lam, n, nonce, j)
+        f = z3.Function("Cat_%d" % M, *([z3.RealSort()] * M), z3.IntSort(), z3.IntSort(), z3.IntSort())
+        exp = f(*elems, a.arg(2), a.arg(3))
+    return exp, side
+
+
 def _bounded_refute(pc, goal, timeout_ms):
-    """expand every Sum/Any with all lengths = N (innermost first, by substitution, so that no lambda
-    is left in the query) and look for a model of (pc and not goal)"""
+    """look for a counter-model among FINITE INSTANCES: every array has N entries (N = 1, 2, 3, or its concrete
+    length), binders are expanded innermost first by substitution so that no lambda is left in the query.  A model
+    of (pc and not goal) there is a genuine counter-model of the obligation."""
     forms = list(pc) + [z3.Not(goal)]
     if not _reduction_apps(forms):
         return None
     for N in (1, 2, 3):
         fs = list(forms)
-        lens = []
+        side = []
         ok = True
-        for _ in range(12):
+        for _ in range(16):
             apps = _reduction_apps(fs)
             if not apps:
                 break
-            # innermost: no reduction inside its own lambda
-            inner = [a for a in apps if not _reduction_apps([a.arg(1)])]
+            inner = [a for a in apps if not _reduction_apps([a.arg(_lam_arg(a)[0])])]
+            if not inner:
+                ok = False
+                break
             subs = []
             for a in inner:
-                n, lam = a.arg(0), a.arg(1)
-                M = N
-                if z3.is_int_value(n):
-                    M = n.as_long()
-                    if M > 16:
-                        ok = False
-                        break
-                else:
-                    lens.append(n == N)
-                if a.decl().name() == "LSE":
-                    # log-sum-exp stays opaque (one unknown real per syntactically distinct application)
-                    subs.append((a, z3.Real("lse!%d!%d" % (N, a.get_id()))))
-                    continue
-                elems = [z3.simplify(z3.Select(lam, z3.IntVal(k))) for k in range(M)]
-                if not elems:
-                    exp = z3.RealVal(0) if a.decl().name() == "Sum" else z3.BoolVal(False)
-                else:
-                    exp = (z3.Sum(elems) if M > 1 else elems[0]) if a.decl().name() == "Sum" else z3.Or(*elems)
-                subs.append((a, exp))
+                r = _finite_instance(a, N)
+                if r is None:
+                    ok = False
+                    break
+                subs.append((a, r[0]))
+                side += r[1]
             if not ok:
                 break
             fs = [z3.substitute(f, *subs) for f in fs]
@@ -220,11 +265,14 @@ def _bounded_refute(pc, goal, timeout_ms):
             ok = False
         if not ok:
             continue
+        txt = " ".join(f.sexpr() for f in fs)
+        if "lambda" in txt:
+            continue  # some other lambda is left: do not claim a refutation
         s = z3.Solver()
         s.set("timeout", min(timeout_ms, 10000))
         s.add(*atom_axioms())
         s.add(*fs)
-        s.add(*lens)
+        s.add(*side)
         if s.check() == z3.sat:
             return N, s.model()
     return None
